@@ -63,6 +63,10 @@ def run(rep, tier):
     ra = assigned_fields(rb)
     missing = [f for f in cf if f not in ra and f not in exempt]
     frees = any(e.get("k") == "call" and callee_short(e) == "free_thread_exit_callbacks" for _, _, e in rb[0].all_events())
+    fr = [f for f in G.find(r"thread_data::free_thread_exit_callbacks$") if not f.pattern]
+    if frees and fr and not any(e.get("k") == "call" and callee_short(e) in ("clear",) and P(e.get("recv")) == "this->exit_funcs_" or
+                                 (e.get("k") == "call" and e.get("op") == "=" and P(e.get("recv")) == "this->exit_funcs_") for _, _, e in fr[0].all_events()):
+        frees = False
     if missing or not frees:
         rep.bad("C12.R1", rb[0], rb[0].loc, "rebind:" + ",".join(missing or ["exit-callbacks"]), "thread_data::rebind_base does not re-initialise %s (set by the constructor): a task running on a recycled "
                 "thread object inherits it from the previous task" % (missing or "the exit callbacks (free_thread_exit_callbacks)"))
